@@ -2,11 +2,14 @@
 C04 — the belt hypotheses of `Laws` hold for the executable instance (`Inst.lean`, C01's belt model) on
 every argument the model passes: CFB with a 16-octet synchro, ECB on ≥ 16 octets (the l/8-octet strings
 of BPACE, l ≥ 128), key wrap of ≥ 16 octets under a 32-octet key.  From the C01 theorems.
-(`mac_len`, `krp_len`: see the end of this file.)
+`belt_mac_len`, `belt_krp_len`: tags have 8 octets for every key and data, a key derived from a 32-octet key
+(every KRP key of the protocols is a belt-hash value) has 32 octets.
 -/
 import Bee2V.C01.PropsModes
 import Bee2V.C01.PropsStream
 import Bee2V.C01.PropsWbl
+import Bee2V.C01.PropsChunk
+import Bee2V.C02.Lemmas
 import Bee2V.C01.PropsChunk
 import Bee2V.C04.Inst
 namespace Bee2V.C04
@@ -57,5 +60,66 @@ theorem belt_kwpU_len (K t x : Bytes) (h : beltKwpU K t = some x) : x.length + 1
           (Bee2V.C01.wblStepDBase_length Bee2V.C01.beltCipher Bee2V.C01.length_blockEncr _ t (by omega)).1
         omega
       · rw [if_neg hd] at hs; cases hs
+
+theorem belt_enc_len : ∀ k x : Bytes, x.length = 16 → (bc.enc k x).length = 16 := Bee2V.C01.length_blockEncr
+
+/-- the CBC-MAC chain value keeps 16 octets over whole blocks -/
+theorem belt_macChain_len (k : Bytes) : ∀ (n : Nat) (s X : Bytes), s.length = 16 → 16 * n ≤ X.length →
+    (Bee2V.C01.macChain bc k n s X).length = 16
+  | 0, s, _, hs, _ => hs
+  | n + 1, s, X, hs, hX => by
+    unfold Bee2V.C01.macChain
+    apply belt_macChain_len k n
+    · apply belt_enc_len
+      rw [Bee2V.C01.length_xorb, hs, List.length_take]; omega
+    · rw [List.length_drop]; omega
+
+/-- `Laws.mac_len` for belt-MAC: the tag has 8 octets for every key and every data -/
+theorem belt_mac_len (K data : Bytes) : (beltMac K data).length = 8 := by
+  have h := Bee2V.C01.mac_tag_spec bc K [data] 8
+  simp only [List.foldl_cons, List.foldl_nil, List.flatten_cons, List.flatten_nil, List.append_nil] at h
+  unfold beltMac
+  rw [h, List.length_take]
+  have hz : (Bee2V.C01.zeros 16).length = 16 := by simp [Bee2V.C01.zeros]
+  have hr := belt_enc_len (Bee2V.C01.fmtKey K) _ hz
+  generalize bc.enc (Bee2V.C01.fmtKey K) (Bee2V.C01.zeros 16) = r at hr ⊢
+  have hp := Bee2V.C01.length_macPend data
+  have hp16 : (Bee2V.C01.macPend data).length ≤ 16 := by
+    rw [hp]; split <;> omega
+  have hs : (Bee2V.C01.macS bc (Bee2V.C01.fmtKey K) data).length = 16 := by
+    unfold Bee2V.C01.macS
+    apply belt_macChain_len _ _ _ _ hz
+    unfold Bee2V.C01.macNb; omega
+  have : (Bee2V.C01.macTagSpec bc (Bee2V.C01.fmtKey K) r data).length = 16 := by
+    unfold Bee2V.C01.macTagSpec
+    simp only
+    split
+    · rename_i h16
+      apply belt_enc_len
+      simp only [Bee2V.C01.length_xorb, hs, h16, List.length_append, List.length_take, List.length_drop, hr]
+      omega
+    · apply belt_enc_len
+      have hzz : ∀ n, (Bee2V.C01.zeros n).length = n := by intro n; simp [Bee2V.C01.zeros]
+      simp only [Bee2V.C01.length_xorb, hs, List.length_append, List.length_take, List.length_drop, hr, hzz,
+        List.length_cons, List.length_nil]
+      omega
+  omega
+
+/-- `Laws.krp_len` for belt-KRP: from a 32-octet key (every KRP key of the protocols is a belt-hash value) a 32-octet
+key is derived, for every number -/
+theorem belt_krp_len (K : Bytes) (i : Nat) (hK : K.length = 32) : (beltKrp K i).length = 32 := by
+  unfold beltKrp Bee2V.C01.krpStepG Bee2V.C01.compr Bee2V.C01.compr2 Bee2V.C01.krpStart
+  simp only [hK]
+  have hsz : Bee2V.Gen.C01.H.toList.length = 256 := by decide +kernel
+  have hH : ((Bee2V.Gen.C01.H.toList.drop (4 * (32 - 16) + 2 * (32 - 16))).take 4).length = 4 := by
+    rw [List.length_take, List.length_drop, hsz]; omega
+  generalize (Bee2V.Gen.C01.H.toList.drop (4 * (32 - 16) + 2 * (32 - 16))).take 4 = r at hH ⊢
+  have hX : (r ++ ones 12 ++ Bee2V.C02.natLE 16 i).length = 32 := by
+    simp [hH, ones, Bee2V.C02.natLE_length]
+  generalize r ++ ones 12 ++ Bee2V.C02.natLE 16 i = X at hX ⊢
+  have h0 : (X.take 16).length = 16 := by rw [List.length_take]; omega
+  have h1 : (X.drop 16).length = 16 := by rw [List.length_drop]; omega
+  rw [List.length_take, List.length_append, Bee2V.C01.length_xorb, Bee2V.C01.length_xorb,
+    belt_enc_len _ _ h0, belt_enc_len _ _ h1, h0, h1]; omega
 
 end Bee2V.C04
